@@ -1,6 +1,246 @@
 /-
-C18 — property theorems.
+C18 — property theorems.  (Helper lemmas: `Lemmas.lean`, `Cons.lean`, `Fresh.lean`, `Run.lean`, `ArgsInv.lean`.)
+
+Vocabulary: `P` = the bodies of the event functions (each a list of scheduler calls, possibly
+ending in a raise); `runOps P s ops = some (s', tr)` = the operations `ops` (addEvent,
+removeEvent, rescheduleEvent, addPeriodicEvent, run — with whatever choices the heap made among
+equal due times —, clock ticks, reset) lead from `s` to `s'` emitting the trace `tr`;
+every successful `addEvent` gets a registration id (`registered`), kept by `rescheduleEvent`.
 -/
-import LimnoriaModel.C18.Model
+import LimnoriaModel.C18.ArgsInv
 namespace C18
+open Py List
+
+/-! ## the heap and the dict stay consistent; `run()` never raises -/
+
+/-- **Invariant of every reachable state**: the scheduled names are exactly the keys of `events`
+and no name is scheduled twice — whatever the event functions do while running. -/
+theorem name_invariant (P : Prog) (now : Nat) (ops : List Op) (r : Sched × List Ev)
+    (h : runOps P (init now) ops = some r) : NameInv r.1 :=
+  runOps_nameInv P ops _ r h (init_nameInv now)
+
+/-- **`run()` never raises** (so `drivers.run` never removes the Schedule driver): in a state
+satisfying the invariant, `self.events.pop(name)` always finds the function — for every order
+in which the heap hands out the due entries and every program of event functions. -/
+theorem run_never_raises (P : Prog) (s : Sched) (hi : NameInv s) (picks : List Name) (s' : Sched)
+    (evs : List Ev) : runPicks P s picks ≠ .crashed s' evs := by
+  intro h
+  have := runPicks_inv P picks s hi
+  rw [h] at this
+  exact this
+
+/-! ## exactly once -/
+
+/-- **Conservation of registrations**: over any history from a fresh schedule, the registrations
+made are exactly (as multisets) those that fired, those removed, those discarded by `reset()` and
+those still scheduled. -/
+theorem conservation (P : Prog) (now : Nat) (ops : List Op) (r : Sched × List Ev)
+    (h : runOps P (init now) ops = some r) :
+    (regOf r.2).Perm (firedOf r.2 ++ removedOf r.2 ++ discOf r.2 ++ rids r.1.sched) := by
+  rw [perm_iff_count]
+  intro x
+  have hc := runOps_conserves P ops _ r h (init_nameInv now) x
+  have hg := goneOf_count x r.2
+  simp only [count_append, init, rids, map_nil, count_nil] at *
+  omega
+
+/-- registration ids are handed out consecutively: none is used twice -/
+theorem registrations_distinct (P : Prog) (now : Nat) (ops : List Op) (r : Sched × List Ev)
+    (h : runOps P (init now) ops = some r) : (regOf r.2).Nodup := by
+  have := (runOps_fresh P ops _ r h (init_nameInv now)).2
+  rw [this]
+  exact nodup_range'
+
+/-- **Exactly once.**  Every registration is in exactly one of these places, once: fired,
+removed, discarded by `reset()`, still scheduled.  In particular no event fires twice, a removed
+event never fires, and an event that is still scheduled has not fired. -/
+theorem exactly_once (P : Prog) (now : Nat) (ops : List Op) (r : Sched × List Ev)
+    (h : runOps P (init now) ops = some r) :
+    (firedOf r.2 ++ removedOf r.2 ++ discOf r.2 ++ rids r.1.sched).Nodup :=
+  (conservation P now ops r h).nodup_iff.mp (registrations_distinct P now ops r h)
+
+theorem removed_never_run (P : Prog) (now : Nat) (ops : List Op) (r : Sched × List Ev)
+    (h : runOps P (init now) ops = some r) (x : Nat) (hx : x ∈ removedOf r.2) : x ∉ firedOf r.2 := by
+  have := exactly_once P now ops r h
+  simp only [append_assoc] at this
+  have := (nodup_append.mp this).2.2
+  intro hf
+  exact this x hf x (by simp [hx]) rfl
+
+theorem fired_at_most_once (P : Prog) (now : Nat) (ops : List Op) (r : Sched × List Ev)
+    (h : runOps P (init now) ops = some r) : (firedOf r.2).Nodup := by
+  have := exactly_once P now ops r h
+  simp only [append_assoc] at this
+  exact (nodup_append.mp this).1
+
+/-- every registration that fired, was removed or discarded, or is scheduled, was registered -/
+theorem fired_were_registered (P : Prog) (now : Nat) (ops : List Op) (r : Sched × List Ev)
+    (h : runOps P (init now) ops = some r) (x : Nat) (hx : x ∈ firedOf r.2) : x ∈ regOf r.2 :=
+  (conservation P now ops r h).mem_iff.mpr (by simp [hx])
+
+/-! ## not early, nothing due left behind -/
+
+/-- **One `run()`**: whatever the heap's choices among equal due times, every event fired by the
+loop had its due time strictly before the current time (never early), each pick was an entry of
+minimal due time (`runPicks` accepts nothing else — time order), the clock is untouched, and when
+the loop ends no scheduled event is due: every event due before `now` — also those added or
+rescheduled into the past by the functions that ran — has run. -/
+theorem run_not_early_and_complete (P : Prog) (s s' : Sched) (picks : List Name) (evs : List Ev)
+    (h : runPicks P s picks = .ok s' evs) :
+    s'.now = s.now ∧ (∀ e ∈ s'.sched, s.now ≤ e.t) ∧
+    (∀ rid due now fn a, Ev.fired rid due now fn a ∈ evs → due < now ∧ now = s.now ∧ rid ≠ none) :=
+  runPicks_times P picks s s' evs h
+
+/-- **Time order**: the entry an iteration of the loop fires has the least due time of all
+scheduled entries at that moment; the rest of the run starts from the state its function left. -/
+theorem run_fires_minimum (P : Prog) (s : Sched) (p : Name) (ps : List Name) (s' : Sched) (evs : List Ev)
+    (h : runPicks P s (p :: ps) = .ok s' evs) :
+    ∃ e f d evs2, e ∈ s.sched ∧ e.name = p ∧ e.t < s.now ∧ (∀ x ∈ s.sched, e.t ≤ x.t) ∧
+      dictPop s.events p = some (f, d) ∧
+      runPicks P (call P { s with sched := s.sched.erase e, events := d } f (some e.rid) e.t e.args).1 ps
+        = .ok s' evs2 ∧
+      evs = (call P { s with sched := s.sched.erase e, events := d } f (some e.rid) e.t e.args).2.1 ++ evs2 := by
+  obtain ⟨e, f, d, evs2, hl, hmem, hn, hmin, hp, hrec, hev⟩ := runPicks_cons_ok h
+  refine ⟨e, f, d, evs2, hmem, hn, ?_, minDue_le _ _ hmin.symm, hp, hrec, hev⟩
+  unfold loopCond at hl
+  rw [← hmin] at hl
+  simpa using hl
+
+/-! ## raising functions, periodic events -/
+
+/-- **A function that raises ends only its own body**: the calls it made before the raise stay
+in effect, nothing after the raise happens — and (`run_fires_minimum`) the loop goes on with
+the next due entry from exactly that state: `except Exception` swallows it. -/
+theorem raise_ends_only_its_body : ∀ (acts rest : List Act) (s : Sched),
+    (execActs s acts).2.2 = none →
+    execActs s (acts ++ Act.raise :: rest) =
+      ((execActs s acts).1, (execActs s acts).2.1 ++ [Ev.failed .raised], some .raised)
+  | [], rest, s, _ => by simp [execActs, execAct]
+  | a :: acts, rest, s, h => by
+    unfold execActs at h ⊢
+    simp only [cons_append]
+    split
+    · rename_i s1 ev e he
+      rw [he] at h; simp at h
+    · rename_i s1 ev he
+      rw [he] at h
+      dsimp only at h ⊢
+      rw [raise_ends_only_its_body acts rest s1 h]
+      simp
+
+/-- **A periodic event keeps recurring even when its function raises**: when the wrapper runs
+with occurrences left (`count` None or > 1), whatever its function's body did — completed or
+raised — it registers its next occurrence at `now + period` under its name with the count
+decreased, and returns normally, provided the name is free at that moment (its own function has
+not taken it). -/
+theorem periodic_recurs (P : Prog) (s : Sched) (fn period : Nat) (name : Option Name) (wargs : Args)
+    (count : Option Nat) (rid : Option Nat) (due : Nat) (args : Args)
+    (hagain : count = none ∨ ∃ c, count = some c ∧ 1 < c)
+    (hfree : hasKey (execActs s (body P fn)).1.events
+      (match name with
+        | none => .num (execActs s (body P fn)).1.counter
+        | some n => n) = false) :
+    let res := call P s (.wrapper fn period name wargs count) rid due args
+    let nm : Name := match name with
+      | none => .num (execActs s (body P fn)).1.counter
+      | some n => n
+    res.2.2 = none ∧ (nm, FnRef.wrapper fn period name wargs (count.map (· - 1))) ∈ res.1.events ∧
+    ∃ e ∈ res.1.sched, e.name = nm ∧ e.t = s.now + period := by
+  have hnow := (execActs_now (body P fn) s).1
+  have hag : again (count.map (· - 1)) = true := by
+    rcases hagain with h | ⟨c, h, hc⟩
+    · subst h; rfl
+    · subst h; simp [again]; omega
+  unfold call
+  dsimp only
+  rw [hag]
+  simp only [if_true]
+  cases name with
+  | none =>
+    unfold addEvent
+    dsimp only at hfree ⊢
+    rw [hfree]
+    simp only [Bool.false_eq_true, if_false]
+    refine ⟨trivial, by simp, ⟨_, by simp; exact Or.inr rfl, rfl, by simp [hnow]⟩⟩
+  | some n =>
+    unfold addEvent
+    dsimp only at hfree ⊢
+    rw [hfree]
+    simp only [Bool.false_eq_true, if_false]
+    refine ⟨trivial, by simp, ⟨_, by simp; exact Or.inr rfl, rfl, by simp [hnow]⟩⟩
+
+/-! ## with the arguments it was registered with -/
+
+/-- **An event fires with the function and the arguments of its registration** — also after any
+number of `rescheduleEvent` calls (which, since the repair, carry the arguments over).  For a
+periodic wrapper the function and arguments are those given to `addPeriodicEvent`.
+(Registration ids are unique, `registrations_distinct`, so "its registration" is well defined.) -/
+theorem args_preserved (P : Prog) (now : Nat) (ops : List Op) (r : Sched × List Ev)
+    (h : runOps P (init now) ops = some r) (rid due t fn : Nat) (a : Args)
+    (hf : Ev.fired (some rid) due t fn a ∈ r.2) :
+    ∃ f regArgs, (rid, f, regArgs) ∈ regTable r.2 ∧
+      ((f = .plain fn ∧ a = regArgs) ∨ ∃ p n c, f = .wrapper fn p n a c) := by
+  have := (runOps_args P ops (init now) r [] h (init_nameInv now) (by intro e he; cases he)).2
+  simp only [nil_append] at this
+  exact this rid due t fn a hf
+
+/-- … and the scheduled entries always carry the arguments of their registration, `events` its
+function (the invariant behind `args_preserved`) -/
+theorem scheduled_match_registration (P : Prog) (now : Nat) (ops : List Op) (r : Sched × List Ev)
+    (h : runOps P (init now) ops = some r) : ArgsInv r.1 (regTable r.2) := by
+  have := (runOps_args P ops (init now) r [] h (init_nameInv now) (by intro e he; cases he)).1
+  simpa using this
+
+/-! ## non-vacuity -/
+
+/-- fn0 re-adds an overdue one-shot and reschedules "b"; fn1 raises after scheduling; fn2 is quiet -/
+def exProg : Prog :=
+  [[.add 2 (.abs 990) (some (.str ['z'])) [['q']], .resched (.str ['b']) (.rel 5)],
+   [.add 2 (.rel 1) none [], .raise, .remove (.str ['b'])],
+   []]
+
+def exOps : List Op :=
+  [.add 0 (.rel 2) (some (.str ['a'])) [['x']],
+   .add 1 (.rel 2) (some (.str ['b'])) [['y'], ['*', '*', 'k', '=', 'v']],
+   .add 2 (.rel 2) none [],
+   .addPeriodic 1 3 (some (.str ['p'])) false [['w']] (some 2),
+   .resched (.str ['b']) (.abs 1001),
+   .remove (.num 0),
+   .tick 3,
+   .run [.str ['b'], .str ['a'], .str ['z']],
+   .tick 2,
+   .run [.str ['p'], .num 1],
+   .tick 10,
+   .run [.num 2, .str ['p']]]
+
+-- the example history is an execution (ties resolved as listed) …
+example : (runOps exProg (init 1000) exOps).isSome = true := by decide
+-- … in which a rescheduled event with arguments, an overdue event added during the run, a raising
+-- function and a periodic event (twice) all fire, and one event is removed:
+example : (runOps exProg (init 1000) exOps).map (fun r => (firedOf r.2, removedOf r.2, rids r.1.sched)) =
+    some ([1, 0, 5, 3, 4, 6, 7], [2], [8]) := by decide
+example : (runOps exProg (init 1000) exOps).map (fun r => regOf r.2) = some [0, 1, 2, 3, 4, 5, 6, 7, 8] := by
+  decide
+-- `args_preserved`: registration 1 fired with the arguments given to addEvent, after being rescheduled
+example : ∃ r, runOps exProg (init 1000) exOps = some r ∧
+    Ev.fired (some 1) 1001 1003 1 [['y'], ['*', '*', 'k', '=', 'v']] ∈ r.2 := by
+  refine ⟨(runOps exProg (init 1000) exOps).get (by decide), by simp, by decide⟩
+-- `periodic_recurs`: a wrapper whose function raises, with occurrences left and a free name
+example : (execActs (init 1000) (body exProg 1)).2.2 = some .raised ∧
+    hasKey (execActs (init 1000) (body exProg 1)).1.events (.str ['p']) = false := by decide
+-- `raise_ends_only_its_body`: a body with a successful prefix before its raise
+example : (execActs (init 1000) [Act.add 2 (.rel 1) none []]).2.2 = none := by decide
+-- `run_never_raises` / `name_invariant` hypotheses are met by `init`; `run_fires_minimum` and
+-- `run_not_early_and_complete` by the runs above:
+example : ∃ s' evs, runPicks exProg
+    ((runOps exProg (init 1000) (exOps.take 7)).get (by decide)).1 [.str ['b'], .str ['a'], .str ['z']]
+      = .ok s' evs := by
+  have h : (match runPicks exProg ((runOps exProg (init 1000) (exOps.take 7)).get (by decide)).1
+      [.str ['b'], .str ['a'], .str ['z']] with
+    | .ok _ _ => true
+    | _ => false) = true := by decide
+  split at h
+  · exact ⟨_, _, by assumption⟩
+  · cases h
+
 end C18
